@@ -333,6 +333,7 @@ def _make_top_class():
             self.seen = []
             self.seen_ids = []
             self.raise_ids = set()
+            self.block_ids = {}        # stanza id -> (entered Event, go Event, raise afterwards?)
             self.raise_once = False
             for t in self.TAGS:
                 self.entity_callbacks[t] = self._on_entity
@@ -341,6 +342,12 @@ def _make_top_class():
             self.seen.append("%s:%s" % (entity.getTag(), entity.__class__.__name__))
             eid = entity.getId() if hasattr(entity, "getId") else None
             self.seen_ids.append(eid)
+            if eid in self.block_ids:
+                entered, go, fail = self.block_ids.pop(eid)
+                entered.set()
+                go.wait(10.0)
+                if fail:
+                    raise RuntimeError("app callback")
             if eid in self.raise_ids:
                 self.raise_ids.discard(eid)
                 raise RuntimeError("app callback")
